@@ -4,3 +4,17 @@ pub assume_specification<T: core::default::Default> [core::mem::take::<T>] (d: &
     ensures r == *old(d), call_ensures(T::default, (), *final(d));
 pub assume_specification<T> [core::mem::replace::<T>] (dest: &mut T, src: T) -> (r: T)
     ensures r == *old(dest), *final(dest) == src;
+// ASSUMED std specs for Option / Result combinators vstd does not cover (so that a change that starts using one of them
+// can still be decided instead of leaving the unit undecided)
+pub assume_specification<T> [Option::<T>::replace] (o: &mut Option<T>, v: T) -> (r: Option<T>)
+    ensures r == *old(o), *final(o) == Some(v);
+pub assume_specification<T> [Option::<T>::or] (o: Option<T>, b: Option<T>) -> (r: Option<T>)
+    ensures r == (if o is Some { o } else { b });
+pub assume_specification<T, E> [Result::<T, E>::unwrap_or] (x: Result<T, E>, d: T) -> (r: T)
+    ensures r == (match x { Ok(t) => t, Err(_) => d });
+pub assume_specification<T, F: FnOnce(T) -> bool> [Option::<T>::is_some_and] (o: Option<T>, f: F) -> (r: bool)
+    requires o matches Some(t) ==> f.requires((t,))
+    ensures o is None ==> !r, o matches Some(t) ==> f.ensures((t,), r);
+pub assume_specification<T, U, F: FnOnce(T) -> U> [Option::<T>::map_or] (o: Option<T>, default: U, f: F) -> (r: U)
+    requires o matches Some(t) ==> f.requires((t,))
+    ensures o is None ==> r == default, o matches Some(t) ==> f.ensures((t,), r);
